@@ -426,6 +426,9 @@ func opaqueStruct(t types.Type) bool {
 	if !ok || nt.Obj().Pkg() == nil {
 		return false
 	}
+	if _, isStruct := nt.Underlying().(*types.Struct); !isStruct {
+		return false
+	}
 	p := nt.Obj().Pkg().Path()
 	return !strings.HasPrefix(p, modPath)
 }
